@@ -245,6 +245,18 @@ func c13TemplateYaml(r *rand.Rand) Case {
 	if err2 == nil {
 		fail = append(fail, "template with a failing action returned no error")
 	}
+	// ... also when the result was to be parsed as YAML, and the document stays a document
+	badY := &pipeline.TemplateOp{Template: "{{ .a | nosuchfunc }}", Path: "out3", ParseAs: &y}
+	var err4 error
+	if pn := guard(func() { err4 = pipeline.New(pipeline.WithData(d)).Execute(badY) }); pn != "" {
+		fail = append(fail, "panic in a template(parseAs yaml) operation whose template fails: "+pn)
+	}
+	if err4 == nil {
+		fail = append(fail, "template(parseAs yaml) with a failing action returned no error")
+	}
+	if pn := guard(func() { _ = d.AsMap(); _ = d.Flatten() }); pn != "" {
+		fail = append(fail, "after a template(parseAs yaml) operation whose template fails the document cannot be read any more: "+pn)
+	}
 	// trim: whitespace around the rendered text is removed BEFORE it is stored or parsed
 	tv := []struct {
 		tmpl string
